@@ -111,6 +111,20 @@ theorem C15_87c_areas_inside (img : Image) (lower : Bool) (fuel : Nat) (s0 : TSt
   · left; rw [hlen]; exact hw e he
   · right; exact hw
 
+/-- …the same for the array `UsedCodeChunks` as chunks.c keeps it (the list the machine carries; `C15_areas_C`) -/
+theorem C15_87c_areas_inside_C (img : Image) (lower : Bool) (fuel : Nat) (s0 : TState) (h0 : s0.codeC = []) (h1 : s0.traced = [])
+    (hw : (∀ e ∈ (traceLoop M87C.disassemble img lower fuel s0).1.traced, e.1 + e.2 ≤ 0x10000) ∨ ¬ inImage img 0) :
+    ∀ x, area (traceLoop M87C.disassemble img lower fuel s0).1.codeC x → inImage img x := by
+  intro x hx
+  have hA := (C15_areas_C M87C.disassemble img lower fuel s0 h0 h1).2.2.1 x
+  have hF := traceLoop_from M87C.disassemble img lower fuel s0 (by rw [h1]; intro e he; cases he)
+  obtain ⟨e, he, hx1, hx2⟩ := hA.mp hx
+  obtain ⟨syms, hlen, _⟩ := hF e he
+  refine C15_87c_honest_at img lower syms e.1 ?_ x hx1 (by rw [hlen]; exact hx2)
+  rcases hw with hw | hw
+  · left; rw [hlen]; exact hw e he
+  · right; exact hw
+
 /-- non-vacuity of the hypothesis of `C15_87c_honest`: the image `00 14 34` at 1000h – with an instruction cut off by its end -/
 example : ¬ inImage [⟨0x1000, [0x00, 0x14, 0x34]⟩] 0 := by simp [inImage]
 
